@@ -65,6 +65,9 @@ func (v *Violation) signature(harness string) string {
 	case "assert":
 		return harness + "|assert|" + v.Label
 	case "panic":
+		if v.Label == "hang" {
+			return harness + "|panic|hang" // the budget runs out at an arbitrary place
+		}
 		return harness + "|panic|" + v.Label + "|" + fn
 	}
 	return harness + "|" + v.Kind + "|" + v.Label
